@@ -91,12 +91,7 @@ where
     T2: Term,
 {
     fn eq(&self, other: &IsoTerm<T1>) -> bool {
-        use TermKind::BlankNode;
-        if self.kind() == BlankNode && other.kind() == BlankNode {
-            true
-        } else {
-            Term::eq(&self.0, other.0.borrow_term())
-        }
+        iso_cmp(self, other) == Ordering::Equal
     }
 }
 
@@ -108,23 +103,34 @@ where
     T2: Term,
 {
     fn partial_cmp(&self, other: &IsoTerm<T1>) -> Option<Ordering> {
-        use TermKind::BlankNode;
-        if self.kind() == BlankNode && other.kind() == BlankNode {
-            Some(Ordering::Equal)
-        } else {
-            Some(Term::cmp(&self.0, other.0.borrow_term()))
-        }
+        Some(iso_cmp(self, other))
     }
 }
 
 impl<T: Term> Ord for IsoTerm<T> {
     fn cmp(&self, other: &Self) -> Ordering {
-        use TermKind::BlankNode;
-        if self.kind() == BlankNode && other.kind() == BlankNode {
-            Ordering::Equal
-        } else {
-            Term::cmp(&self.0, other.0.borrow_term())
+        iso_cmp(self, other)
+    }
+}
+
+/// Compare two terms as [`Term::cmp`] does, except that all blank nodes are considered equal,
+/// *including those nested in quoted triples*.
+fn iso_cmp<T1, T2>(t1: &IsoTerm<T1>, t2: &IsoTerm<T2>) -> Ordering
+where
+    T1: Term,
+    T2: Term,
+{
+    use TermKind::{BlankNode, Triple};
+    match (t1.kind(), t2.kind()) {
+        (BlankNode, BlankNode) => Ordering::Equal,
+        (Triple, Triple) => {
+            let spo1 = t1.triple().unwrap();
+            let spo2 = t2.triple().unwrap();
+            iso_cmp(&spo1[0], &spo2[0])
+                .then_with(|| iso_cmp(&spo1[1], &spo2[1]))
+                .then_with(|| iso_cmp(&spo1[2], &spo2[2]))
         }
+        _ => Term::cmp(&t1.0, t2.0.borrow_term()),
     }
 }
 
